@@ -244,11 +244,11 @@ func (c *Cache[K, V]) MapToCache(m map[K]V, d time.Duration) error {
 
 // IsExpired checks if a cache item is expired.
 func (c *Cache[K, V]) IsExpired(key K) bool {
-	item, err := c.Get(key)
-	if item != nil && err != nil {
-		if item.expiration > time.Now().UnixNano() {
-			return true
-		}
+	c.mu.RLock()
+	defer c.mu.RUnlock()
+
+	if item, ok := c.items[key]; ok && item.expiration > 0 {
+		return time.Now().UnixNano() > item.expiration
 	}
 	return false
 }
